@@ -42,7 +42,7 @@ impl Prop for C13 {
         "exploration"
     }
     fn rule(&self) -> String {
-        "run = seeded valid writer history executed twice: once with every transfer complete (the memory run, which is the model) and once under a seeded transfer schedule at every seam: writer sink accepting 1 byte / 1..n bytes per call with bursts of Interrupted errors, per-append piece sources returning 1 / 1..n bytes (optionally holding more than announced), reader and repair source returning 1 / 1..n bytes per read, repair output sink splitting and interrupting. Oracle: all writer calls succeed; with sink-only schedules on the hook variants the stored image is byte-identical to the memory run; the archive reads back to the abstract model under the reader schedule, with caller buffers of 1, 13, 4096, 65536 or 1 MiB bytes; repair (both modes) of the intact image and of one seeded cut gives the same status, unfinished set and per-file bytes as the memory run. On s0 one third of the runs use the all-ones schedule on every seam. distinct_nontrivial = distinct (variant, layers, sink kind, piece kinds, source kind, out-sink kind, cut region) signatures.".into()
+        "run = seeded valid writer history (now and then 65..200 files or 17..300 recipients: an index / a header larger than any internal buffer) executed twice: once with every transfer complete (the memory run, which is the model) and once under a seeded transfer schedule at every seam: writer sink accepting 1 byte / 1..n bytes per call with bursts of Interrupted errors, per-append piece sources returning 1 / 1..n bytes (optionally holding more than announced), reader and repair source returning 1 / 1..n bytes per read, repair output sink splitting and interrupting. Oracle: all writer calls succeed; with sink-only schedules on the hook variants the stored image is byte-identical to the memory run; the archive reads back to the abstract model under the reader schedule, with caller buffers of 1, 13, 4096, 65536 or 1 MiB bytes; repair (both modes) of the intact image and of one seeded cut gives the same status, unfinished set and per-file bytes as the memory run. On s0 one third of the runs use the all-ones schedule on every seam. distinct_nontrivial = distinct (variant, layers, sink kind, piece kinds, source kind, out-sink kind, cut region) signatures.".into()
     }
     fn assumptions(&self) -> Vec<String> {
         vec![
@@ -76,6 +76,18 @@ impl Prop for C13 {
                     src.sched = Sched::One;
                 }
             }
+        }
+        // now and then an index or a header larger than any internal buffer: 65..200 files with long-lived ones,
+        // 17..300 recipients (read back under short reads)
+        let mut cfg = cfg;
+        if !big && !all_ones && rng.chance(1, 30) {
+            let n = *rng.pick(&[65usize, 129, 200]);
+            let ll = rng.range(1, 2) as usize;
+            ops = gen_many_files(&mut rng, n, ll, 20);
+        }
+        if !all_ones && cfg.enc() && rng.chance(1, 30) {
+            cfg.recipients = *rng.pick(&[17usize, 85, 128, 300]);
+            cfg.reader = rng.usize_below(cfg.recipients);
         }
         let mut case = Case::new("C13", cfg, ops);
         // big images: never 1 byte per call on megabytes (cost), but small maxima on some
